@@ -26,7 +26,7 @@ RECASE_P = 0.35
 RECASE_KINDS = {"tablespace", "enum", "database", "domain"}
 
 ENUM_WORDS = ["'a'", "'b'", "'A'", "'new'", "'in progress'", "'done'", "'x-1'", "'N/A'", "'UPPER'", "'mixed Case'", "'z9'", "'_u'", "'q.r'", "'50%'"]
-NAMES = ["ty", "My_Type", "status_t", "T1", '"Ty"', '"my type"', "[ty2]", "`bt`", "mood_array", "Tag_Arrays", "enum_t", "object_id_t"]   # ... names that merely contain a type keyword
+NAMES = ["ty", "My_Type", "status_t", "T1", '"Ty"', '"my type"', "[ty2]", "`bt`", "mood_array", "Tag_Arrays", "enum_t", "object_id_t", "emp#status", "t$1", "_ty"]   # ... names that merely contain a type keyword
 SCHEMAS = [None, None, "s", "Sch", '"S"', "[dbo]"]
 # keyword-shaped type names (C06 enumerates every keyword at this position; here a few ride along with every type form)
 KW_NAMES = ["key", "comment", "tag", "options", "index", "default", "check", "Order", "Tablespace"]
